@@ -64,15 +64,17 @@ def main():
             base = json.load(open("/root/.vp/BASELINE.json"))
             junit = wt + ".junit.xml"
             # a private network namespace per run: the suite binds fixed TCP ports, this lets several confirmations run at once
-            rc, out = sh(f"unshare -n sh -c 'ip link set lo up; cd {wt} && {PY} -m pytest -ra -q -p no:cacheprovider --timeout=900 "
+            # (the suite's own threads sometimes keep the pytest process alive after its summary: the junit file is complete by then)
+            rc, out = sh(f"timeout -k 5 600 unshare -n sh -c 'ip link set lo up; cd {wt} && {PY} -m pytest -ra -q -p no:cacheprovider --timeout=900 "
                          f"--continue-on-collection-errors --junitxml={junit}'",
                          env={"PYTHONDONTWRITEBYTECODE": "1"}, timeout=3000)
-            ok = passed_tests(junit)
+            ok = passed_tests(junit) if os.path.exists(junit) else set()
             lost = sorted(set(base["stable_pass"]) - ok)
             meta["suite_summary"] = out.strip().splitlines()[-1] if out.strip() else ""
             meta["suite_stable_pass_lost"] = lost[:10]
             meta["ran"].append("full unedited suite in the patched worktree: " + meta["suite_summary"])
-            os.remove(junit)
+            if os.path.exists(junit):
+                os.remove(junit)
         prev = os.path.join(VERIF, "seeded", sid, "meta.json")
         if no_suite and os.path.exists(prev):
             # a re-confirmation after the checks were strengthened: the suite result of the first confirmation stands
